@@ -49,6 +49,19 @@ type checkRun struct {
 	notes    []string
 	nLemmas  int
 	scanOnly bool // the property is decided by scan obligations only (C19)
+	tag      string // the clause tag of the current pass (the property id, or one of its sub-slices)
+}
+
+// subSlices: a property whose clauses are proved in several independent passes. A pass sees only the
+// clauses of its own tag (plus [base]/[inv]); this keeps hypotheses that are needed for one direction of
+// an equivalence (and are expensive for the solvers, e.g. nested quantifiers) out of the other direction.
+var subSlices = map[string][]string{"C17": {"C17c"}}
+
+func (cr *checkRun) passTag() string {
+	if cr.tag != "" {
+		return cr.tag
+	}
+	return cr.prop
 }
 
 func clauseHasTag(c *Clause, prop string) bool {
@@ -233,7 +246,7 @@ func (cr *checkRun) collectTargets() {
 	sort.Strings(keys)
 	for _, k := range keys {
 		ct := e.specs.contracts[k]
-		if ct.Trusted || ct.Opaque || !contractHasTag(ct, cr.prop) {
+		if ct.Trusted || ct.Opaque || !contractHasTag(ct, cr.passTag()) {
 			continue
 		}
 		fns := e.instances(k)
@@ -276,7 +289,7 @@ func runCheck(repo, verifDir, prop, tier string) int {
 	}
 	cr := &checkRun{e: e, prop: prop, tier: tier, seed: seed, slice: map[string]bool{prop: true}, start: start,
 		tally: &Tally{BySolver: map[string]int{}}}
-	cr.safety = prop == "C14"
+	cr.safety = prop == "C14" || prop == "C17" // C17: genesis validation and initialisation must not panic either (the module panics on an init error)
 	if len(e.loadErrors) > 0 {
 		for _, le := range e.loadErrors {
 			fmt.Println("LOAD ERROR:", le)
@@ -316,7 +329,7 @@ func runCheck(repo, verifDir, prop, tier string) int {
 			}
 		}
 		te := vc.newTEnv(vc.entry.clone(), vc.entry, pkg)
-		vc.oblige("lemma", "lemma:"+lm.Name, lm.Src, "lemma "+lm.Text, "true", te.formula(lm.E), lm.Tags)
+		vc.oblige("lemma", "lemma:"+lm.Name, lm.Src, "lemma "+lm.Text, "true", te.goalFormula(lm.E), lm.Tags)
 		vc.discharge(SolveOpts{Dir: qdir, Timeouts: timeouts, Parallel: 16, Seed: seed}, cr.tally)
 		cr.vcs = append(cr.vcs, vc)
 		cr.nLemmas++
@@ -327,6 +340,7 @@ func runCheck(repo, verifDir, prop, tier string) int {
 	} else {
 		cr.extraObl = append(cr.extraObl, &Obligation{Name: "globals#immutable", Kind: "scan", Status: "discharged", Solver: "ssa-scan", Clause: "no in-repo function stores to a package-level variable outside init"})
 	}
+	runPass := func() {
 	done := map[string]bool{}
 	verify := func(t target) {
 		e.selfIface = t.selfIface
@@ -388,6 +402,21 @@ func runCheck(repo, verifDir, prop, tier string) int {
 			cr.targets = append(cr.targets, t)
 			verify(t)
 		}
+	}
+	}
+	runPass()
+	for _, sub := range subSlices[prop] {
+		first := cr.targets
+		cr.tag = sub
+		cr.slice = map[string]bool{sub: true}
+		cr.safety = false // panic freedom is established in the first pass
+		for _, ct := range e.specs.contracts {
+			ct.used, ct.usedStrict = false, false
+		}
+		cr.targets = nil
+		cr.collectTargets()
+		runPass()
+		cr.targets = append(first, cr.targets...)
 	}
 	return cr.report()
 }
